@@ -58,7 +58,7 @@ type vfC25Step struct {
 	Conn    int
 	Batches [][]vfC25Pick
 	Inline  []int
-	Gate    bool // track: park OnTrack; armPoll: park after the backend snapshot was taken (else before)
+	Gate    bool // track: park OnTrack; armPoll: park after the backend snapshot was taken (else before); set: notify
 	Keys    []int
 	Key     int
 	Bump    int
@@ -70,6 +70,8 @@ type vfC25Step struct {
 	Users   int  // revoke: 0 everybody, 1 only the conn's user, 2 everybody but the conn's user
 	Adv     int  // 0: 100ms 1: 600ms 2: one interval 3: three intervals
 	N       int
+	GateB   bool // track: park inside the broker subscribe of trackKeys (PublishEnabled, new key): entry exists, hub not joined
+	Trig    int // armPoll: 0 nothing, 1 notify Key right away, 2 advance one interval right away
 }
 
 type vfC25ConnCfg struct {
@@ -126,14 +128,21 @@ func (s vfC25Step) String() string {
 		if s.Gate {
 			r += " parked"
 		}
+		if s.GateB {
+			r += " parked-in-broker-subscribe"
+		}
 		return r + ")"
 	case vfC25Untrack:
 		return "untrack(" + cn + " " + vfC25KeysStr(s.Keys) + ")"
 	case vfC25Set:
-		if s.Revert {
-			return "set(" + vfC25Keys[s.Key] + " revert)"
+		nt := ""
+		if s.Gate {
+			nt = " +notify"
 		}
-		return fmt.Sprintf("set(%s +%d)", vfC25Keys[s.Key], s.Bump)
+		if s.Revert {
+			return "set(" + vfC25Keys[s.Key] + " revert" + nt + ")"
+		}
+		return fmt.Sprintf("set(%s +%d%s)", vfC25Keys[s.Key], s.Bump, nt)
 	case vfC25Remove:
 		return "remove(" + vfC25Keys[s.Key] + ")"
 	case vfC25Publish:
@@ -156,14 +165,18 @@ func (s vfC25Step) String() string {
 	case vfC25Adv:
 		return "adv(" + []string{"100ms", "600ms", "1iv", "3iv"}[s.Adv] + ")"
 	case vfC25ArmPoll:
+		pos := "before-read"
 		if s.Gate {
-			return "armPoll(after-read)"
+			pos = "after-read"
 		}
-		return "armPoll(before-read)"
+		return "armPoll(" + pos + []string{"", " +notify:" + vfC25Keys[s.Key], " +adv1iv"}[s.Trig] + ")"
 	case vfC25Release:
+		if s.Trig == 1 {
+			return "release(poll)"
+		}
 		return fmt.Sprintf("release(%d)", s.N)
 	case vfC25Fail:
-		return "failToggle"
+		return fmt.Sprintf("failNextPolls(%d)", 1+s.N)
 	case vfC25Epoch:
 		return "epochChange"
 	}
@@ -215,6 +228,7 @@ func vfC25GenTrack(rt *rapid.T, s *vfC25Step) {
 		s.Inline = []int{all[rapid.IntRange(0, len(all)-1).Draw(rt, "inlineKey")]}
 	}
 	s.Gate = rapid.IntRange(0, 3).Draw(rt, "tgate") == 0
+	s.GateB = !s.Gate && rapid.IntRange(0, 3).Draw(rt, "tgateB") == 0
 }
 
 func vfC25Gen(rt *rapid.T) vfC25Case {
@@ -231,33 +245,56 @@ func vfC25Gen(rt *rapid.T) vfC25Case {
 	if c.Versioned {
 		c.EpochMode = rapid.SampledFrom([]int{0, 0, 1}).Draw(rt, "epochMode")
 	}
-	c.Pad = rapid.SampledFrom([]int{0, 12, 60, 60}).Draw(rt, "pad")
+	c.Pad = rapid.SampledFrom([]int{0, 60, 60, 60, 90}).Draw(rt, "pad")
 	for i := 0; i < 3; i++ {
 		c.Conns = append(c.Conns, vfC25ConnCfg{
 			Proto: rapid.SampledFrom([]ProtocolType{ProtocolTypeJSON, ProtocolTypeProtobuf}).Draw(rt, "proto"),
-			Delta: rapid.IntRange(0, 2).Draw(rt, "delta") > 0,
+			Delta: rapid.IntRange(0, 3).Draw(rt, "delta") > 0,
 		})
 	}
-	// every schedule starts with the minimal scenario: x subscribes and tracks key a from scratch
-	c.Steps = append(c.Steps, vfC25Step{Kind: vfC25Sub, Conn: 0},
-		vfC25Step{Kind: vfC25Track, Conn: 0, Batches: [][]vfC25Pick{{{Key: 0}}}})
-	if c.EpochMode == 1 {
-		// with a publisher epoch the first poll of a fresh channel state ends the subscription (""→epoch); come back
-		c.Steps = append(c.Steps, vfC25Step{Kind: vfC25Adv, Adv: 0}, vfC25Step{Kind: vfC25Sub, Conn: 0},
-			vfC25Step{Kind: vfC25Track, Conn: 0, Batches: [][]vfC25Pick{{{Key: 0}}}})
+	// every schedule starts with the minimal scenario (x subscribes and tracks key a from scratch) plus a second tracker
+	tr := func(conn int, keys ...int) vfC25Step {
+		var b []vfC25Pick
+		for _, k := range keys {
+			b = append(b, vfC25Pick{Key: k})
+		}
+		return vfC25Step{Kind: vfC25Track, Conn: conn, Batches: [][]vfC25Pick{b}}
 	}
-	kinds := []int{vfC25Sub, vfC25Sub, vfC25Sub, vfC25Track, vfC25Track, vfC25Track, vfC25Track, vfC25Track, vfC25Untrack, vfC25Untrack,
-		vfC25Set, vfC25Set, vfC25Set, vfC25Set, vfC25Set, vfC25Remove, vfC25Notify, vfC25Notify, vfC25Revoke, vfC25Unsub,
-		vfC25Adv, vfC25Adv, vfC25Adv, vfC25Adv, vfC25Adv, vfC25ArmPoll, vfC25ArmPoll, vfC25ArmPoll, vfC25Release, vfC25Release, vfC25Release, vfC25Release, vfC25Fail}
+	c.Steps = append(c.Steps, vfC25Step{Kind: vfC25Sub, Conn: 0}, vfC25Step{Kind: vfC25Sub, Conn: 1}, tr(0, 0), tr(1, 0, 1))
+	if c.EpochMode == 1 {
+		// with a publisher epoch the first poll of a fresh channel state ends the subscriptions (""→epoch); come back
+		c.Steps = append(c.Steps, vfC25Step{Kind: vfC25Adv, Adv: 0}, vfC25Step{Kind: vfC25Sub, Conn: 0}, vfC25Step{Kind: vfC25Sub, Conn: 1}, tr(0, 0), tr(1, 0, 1))
+	}
+	kinds := []int{vfC25Sub, vfC25Sub, vfC25Track, vfC25Track, vfC25Track, vfC25Track, vfC25Track, vfC25Track, vfC25Untrack, vfC25Untrack,
+		vfC25Set, vfC25Set, vfC25Set, vfC25Set, vfC25Set, vfC25Set, vfC25Set, vfC25Remove, vfC25Notify, vfC25Revoke, vfC25Unsub,
+		vfC25Adv, vfC25Adv, vfC25Adv, vfC25Adv, vfC25Adv, vfC25Adv, vfC25ArmPoll, vfC25ArmPoll, vfC25ArmPoll, vfC25ArmPoll, vfC25ArmPoll, vfC25ArmPoll,
+		vfC25Release, vfC25Release, vfC25Release, vfC25Release, vfC25Release, vfC25Fail}
 	if c.Versioned {
-		kinds = append(kinds, vfC25Publish, vfC25Publish, vfC25Publish, vfC25Publish, vfC25Publish)
+		kinds = append(kinds, vfC25Publish, vfC25Publish, vfC25Publish, vfC25Publish, vfC25Publish, vfC25Publish)
 	}
 	if c.EpochMode == 1 {
 		kinds = append(kinds, vfC25Epoch)
 	}
-	n := rapid.IntRange(4, 36).Draw(rt, "nsteps")
+	raceKinds := []int{vfC25Track, vfC25Track, vfC25Untrack, vfC25Set, vfC25Unsub, vfC25Revoke, vfC25Adv}
+	if c.Versioned {
+		raceKinds = append(raceKinds, vfC25Publish, vfC25Publish, vfC25Publish)
+	}
+	n := rapid.IntRange(8, 40).Draw(rt, "nsteps")
+	window := 0 // >0: inside a poll window opened by armPoll: draw racing operations, then answer the poll
 	for i := 0; i < n; i++ {
-		k := rapid.SampledFrom(kinds).Draw(rt, "kind")
+		var k int
+		switch {
+		case window > 1:
+			k = rapid.SampledFrom(raceKinds).Draw(rt, "raceKind")
+			window--
+		case window == 1:
+			k = vfC25Release
+			window = 0
+			c.Steps = append(c.Steps, vfC25Step{Kind: vfC25Release, Trig: 1})
+			continue
+		default:
+			k = rapid.SampledFrom(kinds).Draw(rt, "kind")
+		}
 		if k == vfC25Unsub && rapid.IntRange(0, 9).Draw(rt, "closeInstead") == 0 {
 			k = vfC25Close
 		}
@@ -275,6 +312,7 @@ func vfC25Gen(rt *rapid.T) vfC25Case {
 			s.Key = rapid.IntRange(0, 2).Draw(rt, "key")
 			s.Bump = rapid.SampledFrom([]int{1, 1, 1, 2, 3}).Draw(rt, "bump")
 			s.Revert = !c.Versioned && rapid.IntRange(0, 3).Draw(rt, "revert") == 0
+			s.Gate = rapid.Bool().Draw(rt, "setNotify")
 		case vfC25Remove:
 			s.Key = rapid.IntRange(0, 2).Draw(rt, "key")
 		case vfC25Publish:
@@ -297,8 +335,15 @@ func vfC25Gen(rt *rapid.T) vfC25Case {
 			s.Adv = rapid.SampledFrom([]int{0, 1, 1, 2, 2, 2, 3}).Draw(rt, "adv")
 		case vfC25ArmPoll:
 			s.Gate = rapid.Bool().Draw(rt, "afterRead")
+			s.Trig = rapid.SampledFrom([]int{0, 1, 1, 2, 2}).Draw(rt, "trig")
+			s.Key = rapid.IntRange(0, 2).Draw(rt, "key")
+			if s.Trig > 0 {
+				window = 1 + rapid.IntRange(1, 3).Draw(rt, "windowLen")
+			}
 		case vfC25Release:
 			s.N = rapid.IntRange(0, 5).Draw(rt, "rel")
+		case vfC25Fail:
+			s.N = rapid.IntRange(0, 2).Draw(rt, "nfail")
 		}
 		c.Steps = append(c.Steps, s)
 	}
@@ -321,7 +366,7 @@ type vfC25Backend struct {
 	keys      map[string]*vfC25KeyModel
 	epochN    int
 	epoch     string
-	fail      bool
+	fail      int // number of upcoming polls that fail
 	counter   int
 	hist      map[string]map[uint64][]byte   // current epoch: key → version → payload (versioned)
 	supplied  map[string]map[uint64][]string // all epochs: key → version → payloads ever supplied (versioned)
@@ -330,13 +375,25 @@ type vfC25Backend struct {
 	pollsOK   int
 	pollEpoch []string // epoch of every successfully answered poll, in answer order
 	afterRead bool
+	seqFn     func() int64
+	updLog    []vfC25Upd // every poll answer / publish delivery that carried a key, with the world sequence number
+}
+
+type vfC25Upd struct {
+	seq  int64
+	key  string
+	what string
 }
 
 func (b *vfC25Backend) newData(key string) []byte {
 	b.counter++
 	pad := ""
 	if b.cs.Pad > 0 {
-		pad = strings.Repeat(string(rune('a'+b.counter%7)), b.cs.Pad/2) + strings.Repeat("z", b.cs.Pad-b.cs.Pad/2)
+		// Three segments: two of them flip between two variants with the counter's low bits, one is stable. A fossil patch
+		// between two payloads stays shorter than the payload ("real" delta) and copies the segments they share from
+		// the base, so applying it to any other base than the one it was computed from gives a wrong result / checksum.
+		n := b.cs.Pad / 3
+		pad = strings.Repeat(string(rune('a'+b.counter&1)), n) + strings.Repeat(string(rune('c'+(b.counter>>1)&1)), n) + strings.Repeat("z", b.cs.Pad-2*n)
 	}
 	return []byte(fmt.Sprintf(`{"k":"%s","n":%d,"p":"%s"}`, key, b.counter, pad))
 }
@@ -399,7 +456,8 @@ func (b *vfC25Backend) poll(gates *vfGates, ev SharedPollEvent) (SharedPollResul
 		gates.Pass("poll")
 	}
 	b.mu.Lock()
-	if b.fail {
+	if b.fail > 0 {
+		b.fail--
 		b.mu.Unlock()
 		if after {
 			gates.Pass("poll")
@@ -442,6 +500,9 @@ func (b *vfC25Backend) poll(gates *vfGates, ev SharedPollEvent) (SharedPollResul
 	b.mu.Lock()
 	b.pollsOK++
 	b.pollEpoch = append(b.pollEpoch, ep)
+	for _, it := range res.Items {
+		b.updLog = append(b.updLog, vfC25Upd{seq: b.seqFn(), key: it.Key, what: fmt.Sprintf("poll answer v%d", it.Version)})
+	}
 	b.mu.Unlock()
 	return res, nil
 }
@@ -453,6 +514,9 @@ type vfC25Attempt struct {
 	id     uint32
 	kind   int // vfC25Sub, vfC25Track, vfC25Untrack, vfC25Unsub
 	sentAt int // number of frames written when the command was sent
+	sentSeq int64 // world sequence number when the command was sent
+	doneSeq int64 // world sequence number at the first quiescence after the reply was written (0 = not yet)
+	replyAt int // frame index of the reply (-1 = none yet)
 	claims map[string]uint64
 	order  []string
 	inline []string
@@ -465,16 +529,16 @@ type vfC25Marker struct {
 }
 
 type vfC25KeyState struct {
-	tracked  bool
-	ver      uint64
-	data     []byte
-	hasData  bool
-	cacheOK  bool
-	cacheVer uint64
-	cacheEp  string
-	updates  int
-	maxRun   int // most updates within one tracking segment
-	run      int
+	tracked bool
+	base    uint64 // the next update must exceed this (last applied update, or the version claimed by the last track)
+	ver     uint64 // version of the payload the client holds (kept after untrack: the client's cache)
+	data    []byte
+	hasData bool
+	garbage bool   // a known-finding delta did not apply: payload unknown until the next full push
+	cacheEp string // epoch of the subscription under which (ver, data) was received
+	updates int
+	maxRun  int // most updates within one tracking segment
+	run     int
 }
 
 type vfC25SubSeg struct {
@@ -500,7 +564,7 @@ type vfC25ConnState struct {
 	trackErr   int
 	pendingWin int
 	known      []string
-	knownEx    string
+	knownEx    map[string]string
 }
 
 func vfC25RenderFrames(fs []vfFrame) string {
@@ -565,7 +629,7 @@ func (o *vfC25Oracle) suppliedOK(key string, version uint64, data []byte) bool {
 
 // run interprets frames[0:] in order. It returns the final client state and the first violation.
 func (o *vfC25Oracle) run(frames []vfFrame) (*vfC25ConnState, string) {
-	st := &vfC25ConnState{keys: map[string]*vfC25KeyState{}}
+	st := &vfC25ConnState{keys: map[string]*vfC25KeyState{}, knownEx: map[string]string{}}
 	for _, k := range vfC25Keys {
 		st.keys[k] = &vfC25KeyState{}
 	}
@@ -602,42 +666,43 @@ func (o *vfC25Oracle) run(frames []vfFrame) (*vfC25ConnState, string) {
 	applyUpdate := func(i int, p *protocol.Publication, where string, baseline uint64) string {
 		ks := st.keys[p.Key]
 		if p.Version <= baseline {
-			return fmt.Sprintf("frame %d (%s): key %s version %d does not exceed the version %d the connection holds", i, where, p.Key, p.Version, baseline)
+			return fmt.Sprintf("frame %d (%s): key %s version %d does not exceed version %d (the last one delivered / claimed)", i, where, p.Key, p.Version, baseline)
 		}
 		payload, err := o.decode(p.Data, st.delta)
 		if err != nil {
 			return fmt.Sprintf("frame %d (%s): key %s v%d: %v", i, where, p.Key, p.Version, err)
 		}
 		var full []byte
+		garbage := false
 		if p.Delta {
 			st.deltaPush++
 			if !st.delta {
 				return fmt.Sprintf("frame %d (%s): delta push for key %s on a subscription that did not negotiate delta", i, where, p.Key)
 			}
-			if !ks.hasData {
+			switch {
+			case ks.garbage:
+				garbage = true // base already unknown because of a known finding
+			case !ks.hasData:
 				return fmt.Sprintf("frame %d (%s): delta push for key %s v%d but the connection holds no payload for the key", i, where, p.Key, p.Version)
-			}
-			res, aerr := fdelta.Apply(ks.data, payload)
-			if aerr != nil || !o.suppliedOK(p.Key, p.Version, res) {
-				key := "C25:poll-prevdata-delta-base-is-not-the-payload-clients-hold-after-racing-publish"
-				msg := fmt.Sprintf("frame %d (%s): delta for key %s v%d does not apply to the payload the connection holds (v%d %s): apply error=%v result=%s",
-					i, where, p.Key, p.Version, ks.ver, vfTrunc(string(ks.data), 60), aerr, vfTrunc(string(res), 60))
-				if o.cs.SendPrev && !o.cs.Keep && o.cs.Versioned {
-					if o.isKnown(key) {
-						st.known = append(st.known, key)
-						st.knownEx = msg
-						// the connection's payload is now garbage until the next full push: stop judging payloads of this key
-						ks.hasData = false
-						ks.ver = p.Version
-						ks.updates++
-						ks.run++
-						return ""
+			default:
+				res, aerr := fdelta.Apply(ks.data, payload)
+				if aerr != nil || !o.suppliedOK(p.Key, p.Version, res) {
+					key := "C25:poll-prevdata-delta-base-is-not-the-payload-clients-hold-after-racing-publish"
+					msg := fmt.Sprintf("frame %d (%s): delta for key %s v%d does not apply to the payload the connection holds (v%d %s): apply error=%v result=%s",
+						i, where, p.Key, p.Version, ks.ver, vfTrunc(string(ks.data), 60), aerr, vfTrunc(string(res), 60))
+					if !(o.cs.SendPrev && !o.cs.Keep && o.cs.Versioned) {
+						return msg
 					}
-					return "[" + key + "] " + msg
+					if !o.isKnown(key) {
+						return "[" + key + "] " + msg
+					}
+					st.known = append(st.known, key)
+					st.knownEx[key] = msg
+					garbage = true
+				} else {
+					full = res
 				}
-				return msg
 			}
-			full = res
 		} else {
 			st.fullPush++
 			if !o.suppliedOK(p.Key, p.Version, payload) {
@@ -645,8 +710,12 @@ func (o *vfC25Oracle) run(frames []vfFrame) (*vfC25ConnState, string) {
 			}
 			full = payload
 		}
-		ks.ver, ks.data, ks.hasData = p.Version, full, true
-		ks.cacheOK, ks.cacheVer, ks.cacheEp = true, p.Version, st.subEpoch
+		ks.base, ks.ver, ks.cacheEp = p.Version, p.Version, st.subEpoch
+		if garbage {
+			ks.garbage, ks.hasData, ks.data = true, false, nil
+		} else {
+			ks.garbage, ks.hasData, ks.data = false, true, full
+		}
 		ks.updates++
 		ks.run++
 		if ks.run > ks.maxRun {
@@ -706,21 +775,28 @@ func (o *vfC25Oracle) run(frames []vfFrame) (*vfC25ConnState, string) {
 				}
 				for _, k := range a.order {
 					ks := st.keys[k]
-					if ks.tracked && ks.ver > a.claims[k] {
-						st.retrackDup++
-					}
-					if !ks.tracked {
+					c := a.claims[k]
+					if ks.tracked {
+						// re-track of a tracked key: the server replaces its per-connection version with the claimed one; the
+						// client keeps whatever it holds (possibly newer, delivered while the command was in flight)
+						if ks.base > c {
+							st.retrackDup++
+						}
+					} else {
 						ks.run = 0
+						if !(c != 0 && c == ks.ver && (ks.hasData || ks.garbage)) {
+							ks.ver, ks.data, ks.hasData, ks.garbage = c, nil, false, false
+						}
 					}
 					ks.tracked = true
-					ks.ver = a.claims[k]
+					ks.base = c
 				}
 				for _, p := range r.SubRefresh.Items {
 					if _, ok := a.claims[p.Key]; !ok {
 						return st, fmt.Sprintf("frame %d: track reply #%d carries key %s which the request did not track", i, a.id, p.Key)
 					}
 					st.replyItems++
-					if m := applyUpdate(i, p, fmt.Sprintf("track reply #%d", a.id), st.keys[p.Key].ver); m != "" {
+					if m := applyUpdate(i, p, fmt.Sprintf("track reply #%d", a.id), st.keys[p.Key].base); m != "" {
 						return st, m
 					}
 				}
@@ -758,7 +834,7 @@ func (o *vfC25Oracle) run(frames []vfFrame) (*vfC25ConnState, string) {
 			if !ks.tracked && !pend {
 				return st, fmt.Sprintf("frame %d: key %s v%d pushed although the connection does not track the key (untracked / revoked / never tracked)", i, p.Pub.Key, p.Pub.Version)
 			}
-			baseline := ks.ver
+			baseline := ks.base
 			if pend {
 				st.pendingWin++
 				// a (re-)track is in flight: the server may already have replaced the per-connection version with the claimed one
@@ -797,7 +873,7 @@ type vfC25Out struct {
 	labels     []string
 	nontrivial bool
 	known      []string
-	knownEx    string
+	knownEx    map[string]string
 }
 
 func (o *vfC25Out) label(l string) { o.labels = append(o.labels, l) }
@@ -847,6 +923,13 @@ func vfC25Run(t *testing.T, cs vfC25Case, out *vfC25Out, isKnown func(string) bo
 			return "infra: " + err.Error()
 		}
 		defer w.Close()
+		be.seqFn = func() int64 { return w.seq.Load() }
+		w.broker.Hook = func(op, phase, ch string) error {
+			if op == "subscribe" && phase == "before" {
+				w.Gates.Pass("brokersub")
+			}
+			return nil
+		}
 		w.ChanOpts = func(c *vfConn, e SubscribeEvent) (SubscribeReply, error) {
 			return SubscribeReply{Options: SubscribeOptions{AllowedDeltaTypes: []DeltaType{DeltaTypeFossil}}, ClientSideRefresh: true}, nil
 		}
@@ -888,10 +971,21 @@ func vfC25Run(t *testing.T, cs vfC25Case, out *vfC25Out, isKnown func(string) bo
 		// mark completion of inline untracks: once the track reply is on the wire and the bubble is quiescent, Step 8 has run
 		markInline := func() {
 			for _, cr := range conns {
-				if len(cr.inlineQ) == 0 {
+				todo := len(cr.inlineQ) > 0
+				for _, a := range cr.attempts {
+					todo = todo || a.doneSeq == 0
+				}
+				if !todo {
 					continue
 				}
 				frames := cr.c.Frames()
+				for fi, f := range frames {
+					if f.Reply != nil && f.Reply.Id != 0 {
+						if a := cr.attempts[f.Reply.Id]; a != nil && a.doneSeq == 0 {
+							a.doneSeq, a.replyAt = w.seq.Load(), fi
+						}
+					}
+				}
 				have := map[uint32]bool{}
 				for _, f := range frames {
 					if f.Reply != nil && f.Reply.Id != 0 {
@@ -913,6 +1007,7 @@ func vfC25Run(t *testing.T, cs vfC25Case, out *vfC25Out, isKnown func(string) bo
 			a.id = cr.c.NextID()
 			cmd.Id = a.id
 			a.sentAt = len(cr.c.Frames())
+			a.sentSeq, a.replyAt = w.seq.Load(), -1
 			cr.attempts[a.id] = a
 			go cr.c.Cmd(cmd)
 			vfSettle()
@@ -941,8 +1036,33 @@ func vfC25Run(t *testing.T, cs vfC25Case, out *vfC25Out, isKnown func(string) bo
 			epochChangeTo = append(epochChangeTo, be.epoch)
 		}
 		emptyEpochUsed := false
+		releaseHeld := func(i int) {
+			w.broker.mu.Lock()
+			if n := len(w.broker.held); n > 0 {
+				d := w.broker.held[i%n]
+				if d.Pub != nil {
+					be.mu.Lock()
+					be.updLog = append(be.updLog, vfC25Upd{seq: w.seq.Load(), key: d.Pub.Key, what: fmt.Sprintf("held publish v%d", d.Pub.Version)})
+					be.mu.Unlock()
+				}
+			}
+			w.broker.mu.Unlock()
+			w.broker.ReleaseHeld(i)
+		}
+		brokerParked := func() bool { return w.Gates.Waiting("brokersub") > 0 }
 
 		for si, s := range cs.Steps {
+			if brokerParked() {
+				// the parked goroutine holds the node's per-channel subscribe lock (a mutex): nothing that needs the lock may run now
+				switch s.Kind {
+				case vfC25Track, vfC25Untrack, vfC25Unsub, vfC25Close, vfC25Revoke, vfC25Epoch:
+					continue
+				case vfC25Publish:
+					if s.NewEp || s.EmptyEp {
+						continue
+					}
+				}
+			}
 			if dbg {
 				fmt.Fprintf(os.Stderr, "DBG step %d %s waiting=%v held=%d\n", si, s, w.Gates.AnyWaiting(), w.broker.NumHeld())
 			}
@@ -987,6 +1107,9 @@ func vfC25Run(t *testing.T, cs vfC25Case, out *vfC25Out, isKnown func(string) bo
 				if !st.subscribed || w.Gates.Waiting("track:"+cr.c.Name) > 0 {
 					continue
 				}
+				if st.subEpoch == "" && cs.EpochMode == 1 {
+					out.label("track_under_unknown_epoch")
+				}
 				a := &vfC25Attempt{kind: vfC25Track, claims: map[string]uint64{}}
 				req := &protocol.SubRefreshRequest{Channel: vfC25Chan, Type: typeTrack}
 				for _, b := range s.Batches {
@@ -995,15 +1118,16 @@ func vfC25Run(t *testing.T, cs vfC25Case, out *vfC25Out, isKnown func(string) bo
 						k := vfC25Keys[p.Key]
 						ks := st.keys[k]
 						var v uint64
-						cacheValid := ks.cacheOK && (cs.EpochMode == 0 || (ks.cacheEp == st.subEpoch && st.subEpoch != ""))
+						// A client reuses a stored version only when the subscription's epoch equals the one the version was
+						// received under (the documented client rule); without publisher epochs versions never restart.
+						cacheValid := ks.ver > 0 && (cs.EpochMode == 0 || (ks.cacheEp == st.subEpoch && st.subEpoch != ""))
 						switch {
-						case ks.tracked:
-							// re-track of a key the connection tracks right now: a client sends the version it holds
-							v = ks.ver
 						case !cs.Versioned:
-							v = 0 // synthetic versions are only meaningful while the key stays tracked
+							v = 0 // synthetic versions belong to one lifetime of the server's channel state, which a client cannot observe
+						case ks.tracked:
+							v = ks.ver // re-track of a key the connection tracks right now: a client sends the version it holds
 						case p.Cache && cacheValid:
-							v = ks.cacheVer
+							v = ks.ver
 						}
 						tb.Items = append(tb.Items, &protocol.KeyedItem{Key: k, Version: v})
 						if _, dup := a.claims[k]; !dup {
@@ -1020,6 +1144,10 @@ func vfC25Run(t *testing.T, cs vfC25Case, out *vfC25Out, isKnown func(string) bo
 				if s.Gate {
 					w.Gates.Arm("track:"+cr.c.Name, 1)
 				}
+				useB := s.GateB && cs.PubEnabled && cs.EpochMode == 0
+				if useB {
+					w.Gates.Arm("brokersub", 1)
+				}
 				raced("track")
 				if len(a.inline) > 0 {
 					cr.inlineQ = append(cr.inlineQ, a)
@@ -1028,9 +1156,15 @@ func vfC25Run(t *testing.T, cs vfC25Case, out *vfC25Out, isKnown func(string) bo
 				if s.Gate && w.Gates.Waiting("track:"+cr.c.Name) > 0 {
 					out.label("track_parked_in_OnTrack")
 				}
+				if useB {
+					w.Gates.Disarm("brokersub")
+					if brokerParked() {
+						out.label("track_parked_between_entry_creation_and_hub_join")
+					}
+				}
 			case vfC25Untrack:
-				if !st.subscribed {
-					continue
+				if !st.subscribed || w.Gates.Waiting("track:"+cr.c.Name) > 0 {
+					continue // no conflicting commands for a key while a track of this connection is in flight
 				}
 				a := &vfC25Attempt{kind: vfC25Untrack}
 				for _, k := range s.Keys {
@@ -1054,6 +1188,9 @@ func vfC25Run(t *testing.T, cs vfC25Case, out *vfC25Out, isKnown func(string) bo
 				out.label("connection_closed")
 			case vfC25Set:
 				be.set(vfC25Keys[s.Key], s.Bump, s.Revert)
+				if s.Gate {
+					w.node.SharedPollNotify([]SharedPollNotificationItem{{Channel: vfC25Chan, Key: vfC25Keys[s.Key]}})
+				}
 				if pollInFlight() {
 					out.label("backend_change_while_poll_in_flight")
 				}
@@ -1114,6 +1251,14 @@ func vfC25Run(t *testing.T, cs vfC25Case, out *vfC25Out, isKnown func(string) bo
 				if perr != nil {
 					return fmt.Sprintf("step %d: SharedPollPublish error: %v", si, perr)
 				}
+				if s.Fault == 0 || s.Fault == 2 || !cs.PubEnabled {
+					be.mu.Lock()
+					be.updLog = append(be.updLog, vfC25Upd{seq: w.seq.Load(), key: k, what: fmt.Sprintf("publish v%d", v)})
+					be.mu.Unlock()
+					if brokerParked() {
+						out.label("publish_between_entry_creation_and_hub_join")
+					}
+				}
 				if s.Fault == 1 {
 					out.label("publish_delivery_held")
 				}
@@ -1149,34 +1294,53 @@ func vfC25Run(t *testing.T, cs vfC25Case, out *vfC25Out, isKnown func(string) bo
 				be.mu.Unlock()
 				w.Gates.Disarm("poll")
 				w.Gates.Arm("poll", 1)
+				switch s.Trig {
+				case 1:
+					w.node.SharedPollNotify([]SharedPollNotificationItem{{Channel: vfC25Chan, Key: vfC25Keys[s.Key]}})
+				case 2:
+					time.Sleep(interval)
+				}
+				vfSettle()
+				if pollInFlight() {
+					out.label("poll_parked_in_backend")
+				}
 			case vfC25Release:
 				cands := w.Gates.AnyWaiting()
 				if w.broker.NumHeld() > 0 {
 					cands = append(cands, "held")
 				}
 				if len(cands) == 0 {
+					time.Sleep(600 * time.Millisecond)
+					vfSettle()
+					markInline()
 					continue
 				}
 				g := cands[s.N%len(cands)]
+				if s.Trig == 1 && pollInFlight() {
+					g = "poll"
+				}
 				if g == "held" {
 					if pollInFlight() {
 						races++
 						out.label("held_publish_delivered_while_poll_in_flight")
 					}
-					w.broker.ReleaseHeld(s.N)
+					releaseHeld(s.N)
 				} else {
 					if g == "poll" && anyTrackParked() {
 						out.label("poll_answered_while_track_parked")
 					}
-					if strings.HasPrefix(g, "track:") && pollInFlight() {
+					if (strings.HasPrefix(g, "track:") || g == "brokersub") && pollInFlight() {
 						races++
 						out.label("track_completed_while_poll_in_flight")
+					}
+					if g == "poll" && brokerParked() {
+						out.label("poll_answered_between_entry_creation_and_hub_join")
 					}
 					w.Gates.Release(g)
 				}
 			case vfC25Fail:
 				be.mu.Lock()
-				be.fail = !be.fail
+				be.fail = 1 + s.N
 				be.mu.Unlock()
 				out.label("backend_failure_window")
 			case vfC25Epoch:
@@ -1186,14 +1350,23 @@ func vfC25Run(t *testing.T, cs vfC25Case, out *vfC25Out, isKnown func(string) bo
 			markInline()
 		}
 
-		// ---- final phase: release everything, heal the backend, let ≥3 refresh intervals pass ---------------------
-		w.Gates.ReleaseAll()
-		vfSettle()
-		for w.broker.NumHeld() > 0 {
-			w.broker.ReleaseHeld(0)
+		// ---- final phase: release everything (one kind at a time), heal the backend, let ≥3 refresh intervals pass -----
+		for w.Gates.Release("poll") {
 		}
+		w.Gates.Disarm("poll")
+		vfSettle()
+		markInline()
+		for w.Gates.Release("brokersub") {
+		}
+		vfSettle()
+		markInline()
+		for w.broker.NumHeld() > 0 {
+			releaseHeld(0)
+		}
+		vfSettle()
+		w.Gates.ReleaseAll()
 		be.mu.Lock()
-		be.fail = false
+		be.fail = 0
 		pollsBefore := be.pollsOK
 		be.mu.Unlock()
 		vfSettle()
@@ -1216,17 +1389,29 @@ func vfC25Run(t *testing.T, cs vfC25Case, out *vfC25Out, isKnown func(string) bo
 				learned = true
 			}
 		}
+		updLog := append([]vfC25Upd(nil), be.updLog...)
 		be.mu.Unlock()
+		known := func(key, msg string) bool {
+			if !isKnown(key) {
+				return false
+			}
+			out.known = append(out.known, key)
+			out.knownEx[key] = msg
+			return true
+		}
 		updates2 := false
 		for _, cr := range conns {
 			frames := cr.c.Frames()
+			if dbg {
+				fmt.Fprintf(os.Stderr, "DBG conn %s frames: %s\n", cr.c.Name, vfC25RenderFrames(frames))
+			}
 			st, m := oracleFor(cr).run(frames)
 			if m != "" {
 				return fmt.Sprintf("conn %s: %s; frames: %s", cr.c.Name, m, vfC25RenderFrames(frames))
 			}
 			out.known = append(out.known, st.known...)
-			if st.knownEx != "" {
-				out.knownEx = st.knownEx
+			for k, v := range st.knownEx {
+				out.knownEx[k] = v
 			}
 			closed, _ := cr.c.T.Closed()
 			if st.deltaPush > 0 {
@@ -1258,26 +1443,29 @@ func vfC25Run(t *testing.T, cs vfC25Case, out *vfC25Out, isKnown func(string) bo
 					updates2 = true
 				}
 			}
-			// epoch change ⇒ subscriptions current at the change end (insufficient state / client's own unsubscribe / close)
+			// Epoch change ⇒ current subscriptions end (insufficient state / the client's own unsubscribe / close). The server
+			// certainly knows the final publisher epoch (polls answered with it were applied in the final phase). A live
+			// subscription is stale when the publisher epoch changed after it started, or when its reply carried another
+			// (non-empty) epoch than the final one.
 			survivor := false
-			if learned && !closed {
-				if n := len(epochChangeSeqs); n > 0 {
-					// a subscription that is still live was current at every change after its start; the last change is the
-					// one the server certainly learnt (polls answered with the final epoch were applied)
-					chSeq, to := epochChangeSeqs[n-1], epochChangeTo[n-1]
-					for _, sub := range st.subs {
-						if sub.startSeq < chSeq && sub.endSeq == 0 {
-							survivor = true
-							key := "C25:epoch-change-does-not-end-subscriptions-without-a-tracked-key"
-							msg := fmt.Sprintf("conn %s: subscription (reply epoch %q) was current when the publisher epoch changed to %q and polls answered with the new epoch were applied, yet it was never ended; frames: %s",
-								cr.c.Name, sub.epoch, to, vfC25RenderFrames(frames))
-							if isKnown(key) {
-								out.known = append(out.known, key)
-								out.knownEx = msg
-							} else {
-								return "[" + key + "] " + msg
-							}
-						}
+			if learned && !closed && cs.EpochMode == 1 {
+				for _, sub := range st.subs {
+					if sub.endSeq != 0 {
+						continue
+					}
+					changedSince := false
+					for _, chSeq := range epochChangeSeqs {
+						changedSince = changedSince || sub.startSeq < chSeq
+					}
+					if !(changedSince || (sub.epoch != "" && sub.epoch != finalEpoch)) {
+						continue
+					}
+					survivor = true
+					key := "C25:epoch-change-does-not-end-subscriptions-without-a-tracked-key"
+					msg := fmt.Sprintf("conn %s: subscription with reply epoch %q is still live although the publisher epoch is %q (changed during its life: %v) and polls answered with that epoch were applied; frames: %s",
+						cr.c.Name, sub.epoch, finalEpoch, changedSince, vfC25RenderFrames(frames))
+					if !known(key, msg) {
+						return "[" + key + "] " + msg
 					}
 				}
 			}
@@ -1302,20 +1490,46 @@ func vfC25Run(t *testing.T, cs vfC25Case, out *vfC25Out, isKnown func(string) bo
 					continue
 				}
 				out.label("liveness_checked")
+				msg := ""
 				if cs.Versioned {
-					if !ks.hasData && ks.ver == ver {
+					if !ks.hasData && !ks.garbage && ks.ver == ver {
 						continue // the client claimed the newest version itself
 					}
 					if ks.ver != ver || (ks.hasData && string(ks.data) != string(data)) {
-						return fmt.Sprintf("liveness: conn %s still tracks key %s but holds v%d %s while the newest supplied is v%d %s (≥3 refresh intervals after the last change, backend healthy); frames: %s",
-							cr.c.Name, k, ks.ver, vfTrunc(string(ks.data), 60), ver, vfTrunc(string(data), 60), vfC25RenderFrames(frames))
+						msg = fmt.Sprintf("liveness: conn %s still tracks key %s but holds v%d %s while the newest supplied is v%d %s", cr.c.Name, k, ks.ver, vfTrunc(string(ks.data), 60), ver, vfTrunc(string(data), 60))
 					}
-				} else {
-					if !ks.hasData || string(ks.data) != string(data) {
-						return fmt.Sprintf("liveness: conn %s still tracks key %s but holds %s while the backend's payload is %s (≥3 refresh intervals after the last change, backend healthy); frames: %s",
-							cr.c.Name, k, vfTrunc(string(ks.data), 60), vfTrunc(string(data), 60), vfC25RenderFrames(frames))
+				} else if !ks.garbage && (!ks.hasData || string(ks.data) != string(data)) {
+					msg = fmt.Sprintf("liveness: conn %s still tracks key %s but holds %s while the backend's payload is %s", cr.c.Name, k, vfTrunc(string(ks.data), 60), vfTrunc(string(data), 60))
+				}
+				if msg == "" {
+					continue
+				}
+				msg += " (≥3 refresh intervals after the last change, backend healthy); server: " + vfC25Diag(w, cr.c.Client, k)
+				// root cause classification: an update for the key was supplied while this connection's last track of the key was
+				// between its start and its completion (entry registered in the manager, connection not yet in the keyed hub)
+				var last *vfC25Attempt
+				for _, a := range cr.attempts {
+					if _, ok := a.claims[k]; ok && a.kind == vfC25Track && a.replyAt >= 0 && (last == nil || a.replyAt > last.replyAt) {
+						last = a
 					}
 				}
+				inWindow := ""
+				if last != nil {
+					for _, u := range updLog {
+						if u.key == k && u.seq >= last.sentSeq && u.seq <= last.doneSeq {
+							inWindow = u.what
+						}
+					}
+				}
+				msg += fmt.Sprintf("; update inside the last track's window: %q; frames: %s", inWindow, vfC25RenderFrames(frames))
+				if inWindow != "" {
+					key := "C25:update-between-trackKeys-and-hub-join-is-never-delivered-to-the-tracking-connection"
+					if known(key, msg) {
+						continue
+					}
+					return "[" + key + "] " + msg
+				}
+				return msg
 			}
 		}
 		if emptyEpochUsed {
@@ -1335,6 +1549,41 @@ func vfC25Run(t *testing.T, cs vfC25Case, out *vfC25Out, isKnown func(string) bo
 		}
 		return ""
 	})
+}
+
+// vfC25Diag renders the server-side state for (connection, key); used in failure messages only.
+func vfC25Diag(w *vfWorld, c *Client, key string) string {
+	var sb strings.Builder
+	m := w.node.sharedPollManager
+	m.mu.RLock()
+	s := m.channels[vfC25Chan]
+	m.mu.RUnlock()
+	if s == nil {
+		sb.WriteString("no channel state")
+	} else {
+		s.mu.Lock()
+		if e := s.itemIndex[key]; e != nil {
+			fmt.Fprintf(&sb, "entry{version=%d needsBroadcast=%v freshFromPublish=%v pendingHubJoin=%d} epoch=%q", e.version, e.needsBroadcast, e.freshFromPublish, e.pendingHubJoin, s.epoch)
+		} else {
+			fmt.Fprintf(&sb, "no entry (keys=%d) epoch=%q", len(s.itemIndex), s.epoch)
+		}
+		fmt.Fprintf(&sb, " workerRunning=%v removed=%v", s.workerRunning, s.removed)
+		s.mu.Unlock()
+	}
+	if hub := w.node.keyedManager.getHub(vfC25Chan); hub != nil {
+		fmt.Fprintf(&sb, " inHub=%v", hub.hasSubscriber(key, c))
+	} else {
+		sb.WriteString(" no hub")
+	}
+	c.mu.RLock()
+	if c.keyed != nil && c.keyed.trackedKeys[vfC25Chan] != nil && c.keyed.trackedKeys[vfC25Chan][key] != nil {
+		ks := c.keyed.trackedKeys[vfC25Chan][key]
+		fmt.Fprintf(&sb, " conn{version=%d deltaReady=%v}", ks.version, ks.deltaReady)
+	} else {
+		sb.WriteString(" conn{key not tracked}")
+	}
+	c.mu.RUnlock()
+	return sb.String()
 }
 
 func vfC25Replied(frames []vfFrame, id uint32) bool {
@@ -1363,7 +1612,7 @@ func TestVF_C25(t *testing.T) {
 	vfCheck(t, "C25", func(rt *rapid.T, c *vfCase) string {
 		cs := vfC25Gen(rt)
 		c.Describe(cs.String())
-		out := &vfC25Out{}
+		out := &vfC25Out{knownEx: map[string]string{}}
 		msg := vfC25Run(t, cs, out, c.IsKnown)
 		seen := map[string]bool{}
 		add := func(l string) {
@@ -1393,7 +1642,7 @@ func TestVF_C25(t *testing.T) {
 		for _, k := range out.known {
 			if !seenK[k] {
 				seenK[k] = true
-				c.Known(k, out.knownEx)
+				c.Known(k, out.knownEx[k])
 			}
 		}
 		if out.nontrivial {
@@ -1401,4 +1650,19 @@ func TestVF_C25(t *testing.T) {
 		}
 		return msg
 	})
+}
+
+// TestVF_C25_Scenario runs one hand-written schedule (debugging aid; not part of the check's test list).
+func TestVF_C25_Scenario(t *testing.T) {
+	if os.Getenv("VF_C25_SCENARIO") == "" {
+		t.Skip("debug only")
+	}
+	cs := vfC25Case{Versioned: true, Keep: false, SendPrev: true, IntervalMs: 1000, Pad: 60,
+		Conns: []vfC25ConnCfg{{Proto: ProtocolTypeJSON, Delta: true}, {Proto: ProtocolTypeProtobuf, Delta: true}, {Proto: ProtocolTypeJSON}},
+		Steps: []vfC25Step{{Kind: vfC25Sub, Conn: 0}, {Kind: vfC25Track, Conn: 0, Batches: [][]vfC25Pick{{{Key: 0}}}},
+			{Kind: vfC25Set, Key: 0, Bump: 1}, {Kind: vfC25Adv, Adv: 2},
+			{Kind: vfC25ArmPoll, Trig: 2}, {Kind: vfC25Publish, Key: 0}, {Kind: vfC25Set, Key: 0, Bump: 1}, {Kind: vfC25Release}}}
+	out := &vfC25Out{knownEx: map[string]string{}}
+	msg := vfC25Run(t, cs, out, func(string) bool { return false })
+	fmt.Fprintf(os.Stderr, "DBG verdict=%q labels=%v\n", msg, out.labels)
 }
